@@ -101,3 +101,22 @@ Fixpoint dget (c : str) (d : list (str * Z)) : Z :=
 (* ---- PDP request ---- *)
 Definition attrs_of_cat (c : N) (p : pdp) : list pdp_attr :=
   flat_map (fun e => if N.eqb (fst e) c then snd e else []) p.
+
+(* ---- the XACML interface the PDP policies are written against (pinned specification):
+        attribute id text and data type of every attribute derived from a slice; all belong to the
+        resource category ---- *)
+Definition xs_string : str := S"http://www.w3.org/2001/XMLSchema#string".
+Definition xs_integer : str := S"http://www.w3.org/2001/XMLSchema#integer".
+Definition resource_category : str := S"urn:oasis:names:tc:xacml:3.0:attribute-category:resource".
+Definition pinned_resource_rows : list (N * (str * str)) :=
+  [(A_RESOURCE_TYPE, (S"urn:fabric:xacml:attributes:resource-type", xs_string));
+   (A_RESOURCE_CPU, (S"urn:fabric:xacml:attributes:resource-cpu", xs_integer));
+   (A_RESOURCE_RAM, (S"urn:fabric:xacml:attributes:resource-ram", xs_integer));
+   (A_RESOURCE_DISK, (S"urn:fabric:xacml:attributes:resource-disk", xs_integer));
+   (A_RESOURCE_BW, (S"urn:fabric:xacml:attribute:resource-bw", xs_integer));
+   (A_RESOURCE_SITE, (S"urn:fabric:xacml:attribute:resource-site", xs_string));
+   (A_RESOURCE_COMPONENT, (S"urn:fabric:xacml:attribute:resource-component", xs_string));
+   (A_RESOURCE_FABNETV4_EXT, (S"urn:fabric:xacml:attribute:resource-fabnetv4-ext-site", xs_string));
+   (A_RESOURCE_FABNETV6_EXT, (S"urn:fabric:xacml:attribute:resource-fabnetv6-ext-site", xs_string));
+   (A_RESOURCE_MIRROR_SITE, (S"urn:fabric:xacml:attribute:resource-mirrorsite", xs_string));
+   (A_RESOURCE_FACILITY_PORT, (S"urn:fabric:xacml:attribute:resource-facility-port", xs_string))].
